@@ -20,6 +20,7 @@ The forward pass (second loop) is cut off: it renames through aliased nested dic
 follow; the bounded native suite covers it.
 """
 from pyvc import kinds as K
+from pyvc.kinds import V
 from pyvc.world import World, LoopInv
 from pyvc.runner import Family
 
@@ -36,6 +37,9 @@ GHOST_INIT = [
     'doomed = fun(Id, lambda k: False)',
     'doomedm = fun(Str, lambda n: False)',
     'folded = mutset()', 'legit = mutset()', 'seen = mutset()', 'ok = True',
+    # the Meta value that wins per model: the one of the LAST ChangeMeta in the batch (first one visited here)
+    'ut_seen = fun(Str, lambda n: False)', 'ut_val = fun(Str, lambda n: no_val())',
+    'ix_seen = fun(Str, lambda n: False)', 'ix_val = fun(Str, lambda n: no_val())',
 ]
 
 # backward step of the ghost state over the mutation just visited (runs at the end of each iteration; `doomed` /
@@ -67,6 +71,13 @@ elif isinstance(mutation, RenameField):
                                        (mutation.model_name, mutation.old_field_name), track[c]))
 elif isinstance(mutation, DeleteModel):
     doomedm[mutation.model_name] = True
+elif isinstance(mutation, ChangeMeta):
+    if mutation.prop_name == 'unique_together' and not ut_seen[mutation.model_name]:
+        ut_seen[mutation.model_name] = True
+        ut_val[mutation.model_name] = mutation.new_value
+    elif mutation.prop_name == 'indexes' and not ix_seen[mutation.model_name]:
+        ix_seen[mutation.model_name] = True
+        ix_val[mutation.model_name] = mutation.new_value
 elif isinstance(mutation, RenameModel):
     if doomedm[mutation.new_model_name]:
         legit.add(mutation)
@@ -106,6 +117,10 @@ INV = [
     # no tracked ChangeField addresses a field that is deleted later on, none was dropped or folded already
     'implies(ok, forall(last_change_mutations, lambda k: k not in deleted_fields))',
     'implies(ok, forall(last_change_mutations, lambda k: last_change_mutations[k] not in removed_mutations))',
+    # per model, the recorded unique_together / indexes value is the one of the last ChangeMeta of the batch, whatever
+    # that value is (an empty list included)
+    'forall(Str, lambda n: (n in unique_together) == ut_seen[n] and implies(ut_seen[n], unique_together[n] == ut_val[n]))',
+    'forall(Str, lambda n: (n in model_meta_indexes) == ix_seen[n] and implies(ix_seen[n], model_meta_indexes[n] == ix_val[n]))',
 ]
 
 
@@ -128,6 +143,7 @@ def build():
     w.define('fid', ['m'], '(m.model_name, m.field_name)')
     w.spec_funcs['no_id'] = lambda it: K.opt_none(ID)
     w.spec_funcs['mutset'] = lambda it: K.empty_set(MUT)
+    w.spec_funcs['no_val'] = lambda it: V(VAL, VAL.default_terms())
     w.kinds['Ref_Add'] = K.Ref('AddField')
     w.kinds['Ref_Change'] = K.Ref('ChangeField')
     # folding a later ChangeField into the earlier mutation: the later statement wins attribute by attribute, a type or
@@ -183,7 +199,7 @@ def build():
         params={'self': K.Ref('AppMutator'), 'd': None, 'old_key': None, 'new_key': None},
         note='analysed inline at each call site (it is used on four differently typed dicts)')
     w.contract(
-        'AppMutator._process_mutation_batch', module=APPMUT, serves=['C03'],
+        'AppMutator._process_mutation_batch', module=APPMUT, serves=['C03', 'C01'],
         params={'self': K.Ref('AppMutator'), 'mutation_batch': K.Tuple(K.Bool, K.Seq(MUT))},
         returns=None,
         requires=[
